@@ -307,6 +307,38 @@ func (p *verifPass) verifCheckCreates() {
 	now := j.now
 	// state of each index as the pass saw it (recorded refs refreshed by the cache view)
 	perIndexCreates := make([]int, len(j.indexes))
+	// Is the Job already complete, judged by what the pass could see (recorded refs
+	// refreshed by the tasks in the cache; vanished tasks are left out, which only
+	// under-approximates completeness)? AnySuccessful: some index succeeded;
+	// AllSuccessful / not parallel: some index used all its attempts without success.
+	complete := false
+	if len(j.indexes) > 1 {
+		for k := range j.indexes {
+			succ := false
+			finished := int64(0)
+			for _, r := range j.refs {
+				if r.pidx != k {
+					continue
+				}
+				fin, res := r.hasFinished, r.result
+				if r.task != nil && !r.hasFinished && !r.task.Ref.FinishTimestamp.IsZero() {
+					fin, res = true, r.task.Ref.Status.Result
+				}
+				if fin {
+					finished++
+					if res == execution.TaskSucceeded {
+						succ = true
+					}
+				}
+			}
+			if j.strategyAny && succ {
+				complete = true
+			}
+			if !j.strategyAny && !succ && finished >= j.maxAttempts {
+				complete = true
+			}
+		}
+	}
 	for ci, idx := range p.created {
 		pidx := -1
 		for k := range j.indexes {
@@ -322,6 +354,10 @@ func (p *verifPass) verifCheckCreates() {
 		vz.Assert(!j.deleted, "C08/no-create-while-deleting")
 		vz.Assert(!j.hasKill, "C08/no-create-with-killTimestamp")
 		vz.Assert(!j.admErr, "C08/no-create-after-admission-error")
+		vz.Assert(!complete, "C08/no-create-once-the-job-is-complete")
+		if len(j.indexes) > 1 {
+			vz.Cover("created-for-a-parallel-job")
+		}
 		// per-index rules against the recorded refs of that index
 		n := int64(0)
 		var latestFinish time.Time
